@@ -449,3 +449,234 @@ Proof.
   cbv zeta. unfold ws, fbxs, pred_ex. simpl. repeat split; try (f_equal; ring); try lra.
   constructor; [|constructor]. unfold NU_w. simpl. rewrite D1, R1, Rmult_1_l. split; exact N1.
 Qed.
+
+(* ===================================================================================================================== *)
+(* Second extension: ACCURACY of the one-pass statistics, the ADVERTISED properties of the scaled columns in floating    *)
+(* point (C14_Float2Defs.v / C14_Float2.v), and the wrappers linear_t::fit / predict (C14_WrapDefs.v / C14_Wrap.v).      *)
+(*   sumR / sqR = the running sums of update() folded LEFT TO RIGHT (sequential scalar code), meanR / varR / sdR = the    *)
+(*   expression trees of done(), var_ex = the exact sample variance, yR m d x = rnd (rnd (x - m) * d) = one scaled value. *)
+(* ===================================================================================================================== *)
+From LN Require Import C14_Float2Defs C14_Float2.
+
+(* 22. the mean: |rnd (s / N) - S / N| <= g N * (sum |x_i| / N) -- N - 1 effective additions (0 + x_1 is exact) and the
+       division; sharper than the classical gamma_{N+1} *)
+Theorem C14_fl_mean_accuracy_real : forall l dn, (1 <= length l)%nat -> Forall fmt l -> 0 < dn -> NU (sumR l / dn) ->
+  Rabs (meanR l dn - rsum l / dn) <= g (length l) * (rabssum l / dn).
+Proof. exact mean_accuracy_R. Qed.
+Print Assumptions C14_fl_mean_accuracy_real.
+
+(* 23. the one-pass variance of done(), (sq - sum * sum / dN) / (dN - 1.0), before the clamp: within
+       (g (N+2) * sum x^2 + g (2N+2) * (sum |x|)^2 / N) / (N - 1) of the exact sample variance, no underflow (var_NU) *)
+Theorem C14_fl_variance_accuracy_real : forall l dn,
+  (1 <= length l)%nat -> Forall fmt l -> 1 < dn -> fmt (dn - 1) -> var_NU l dn ->
+  Rabs (varR l dn - var_ex l dn) <= var_err l dn.
+Proof. exact variance_accuracy_R. Qed.
+Print Assumptions C14_fl_variance_accuracy_real.
+
+(* 24. the exact one-pass variance is >= 0 over R (Cauchy-Schwarz), as C14_variance_nonneg over Q *)
+Theorem C14_fl_variance_nonneg_real : forall l, (2 <= length l)%nat -> 0 <= var_ex l (INR (length l)).
+Proof. exact var_ex_nonneg. Qed.
+Print Assumptions C14_fl_variance_nonneg_real.
+
+(* 25. the deviation sqrt (max (v, 0.0)): correctly rounded root (never underflows) + the clamp (1-Lipschitz):
+       (var - E) (1-u)^2 <= sd^2 <= (var + E) (1+u)^2   and   |sd - sqrt var| <= u sqrt var + (1+u) sqrt E,  E = var_err *)
+Theorem C14_fl_stdev_accuracy_real : forall l, let dn := INR (length l) in
+  (2 <= length l)%nat -> Forall fmt l -> fmt (dn - 1) -> var_NU l dn ->
+  0 <= sdR l dn /\
+  sdR l dn * sdR l dn <= (var_ex l dn + var_err l dn) * ((1 + u) * (1 + u)) /\
+  (var_ex l dn - var_err l dn) * ((1 - u) * (1 - u)) <= sdR l dn * sdR l dn /\
+  Rabs (sdR l dn - sqrt (var_ex l dn)) <= u * sqrt (var_ex l dn) + (1 + u) * sqrt (var_err l dn).
+Proof.
+  intros l dn Hn F Fd N. destruct (stdev_sq_accuracy_R l Hn F Fd N) as (A & B & C).
+  repeat split; try assumption. exact (stdev_accuracy_R l Hn F Fd N).
+Qed.
+Print Assumptions C14_fl_stdev_accuracy_real.
+
+(* 26. the bridge: for an enabled column with 2 <= N < 2^53 finite entries whose sums do not overflow (var_finite, the test
+       on the FINAL sums covers every intermediate one), the mean and the deviation of the twin's record ARE meanR / sdR of
+       the real values of the finite entries, in the order of the column *)
+Theorem C14_fl_twin_statistics : forall eps big i esize eflag col,
+  let a := fcol_acc big col in let xs := FRs col in let n := length xs in
+  src_c14_disabled i esize eflag = false -> (2 <= n)%nat -> (Z.of_nat n < 2 ^ 53)%Z -> var_finite a = true ->
+  let s := fdone eps i esize eflag a in
+  fin (f_mean s) /\ fin (f_stdev s) /\ FR (f_mean s) = meanR xs (INR n) /\ FR (f_stdev s) = sdR xs (INR n) /\
+  fmt (INR n - 1).
+Proof. exact twin_stats_real. Qed.
+Print Assumptions C14_fl_twin_statistics.
+
+(* 27. accuracy of the twin's mean *)
+Theorem C14_fl_mean_accuracy : forall eps big i esize eflag col,
+  let a := fcol_acc big col in let xs := FRs col in let n := length xs in
+  src_c14_disabled i esize eflag = false -> (2 <= n)%nat -> (Z.of_nat n < 2 ^ 53)%Z -> var_finite a = true ->
+  NU (sumR xs / INR n) ->
+  Rabs (FR (f_mean (fdone eps i esize eflag a)) - rsum xs / INR n) <= g n * (rabssum xs / INR n).
+Proof. exact twin_mean_accuracy. Qed.
+Print Assumptions C14_fl_mean_accuracy.
+
+(* 28. accuracy of the twin's deviation *)
+Theorem C14_fl_stdev_accuracy : forall eps big i esize eflag col,
+  let a := fcol_acc big col in let xs := FRs col in let n := length xs in let dn := INR n in
+  src_c14_disabled i esize eflag = false -> (2 <= n)%nat -> (Z.of_nat n < 2 ^ 53)%Z -> var_finite a = true ->
+  var_NU xs dn ->
+  let sd := FR (f_stdev (fdone eps i esize eflag a)) in
+  0 <= sd /\
+  sd * sd <= (var_ex xs dn + var_err xs dn) * ((1 + u) * (1 + u)) /\
+  (var_ex xs dn - var_err xs dn) * ((1 - u) * (1 - u)) <= sd * sd /\
+  Rabs (sd - sqrt (var_ex xs dn)) <= u * sqrt (var_ex xs dn) + (1 + u) * sqrt (var_err xs dn).
+Proof. exact twin_stdev_accuracy. Qed.
+Print Assumptions C14_fl_stdev_accuracy.
+
+(* 29. ZERO MEAN in floating point. One scaled value of the twin is yR (bridge); the sum of a scaled column is
+       (S - N m) d up to g 2 * d * sum |x_i - m|; hence, if the stored mean is within delta of the exact one, the mean of the
+       scaled column is within d (delta + g 2 sum |x_i - m| / N) of zero; for the twin delta = g N * sum |x_i| / N *)
+Theorem C14_fl_scale_real : forall m s x, m <> MNone -> scale_finite m s x = true ->
+  fin (fscale_one m s x) /\ FR (fscale_one m s x) = yR (FR (f_off m s)) (FR (f_div m s)) (FR x).
+Proof. exact fscale_real. Qed.
+Print Assumptions C14_fl_scale_real.
+
+Theorem C14_fl_scaled_sum_real : forall m d l, Forall fmt l -> fmt m -> 0 <= d -> scale_NU m d l ->
+  Rabs (rsum (map (yR m d) l) - (rsum l - INR (length l) * m) * d) <= g 2 * (d * rabssum (devs m l)).
+Proof. exact scaled_sum_R. Qed.
+Print Assumptions C14_fl_scaled_sum_real.
+
+Theorem C14_fl_zero_mean_real : forall m d l delta,
+  (1 <= length l)%nat -> Forall fmt l -> fmt m -> 0 <= d -> scale_NU m d l ->
+  Rabs (m - rsum l / INR (length l)) <= delta ->
+  Rabs (rsum (map (yR m d) l) / INR (length l)) <= d * (delta + g 2 * (rabssum (devs m l) / INR (length l))).
+Proof. exact zero_mean_R. Qed.
+Print Assumptions C14_fl_zero_mean_real.
+
+Theorem C14_fl_zero_mean : forall eps big i esize eflag col m,
+  let a := fcol_acc big col in let xs := FRs col in let n := length xs in
+  let s := fdone eps i esize eflag a in
+  (m = MMean \/ m = MStandard) ->
+  src_c14_disabled i esize eflag = false -> (2 <= n)%nat -> (Z.of_nat n < 2 ^ 53)%Z -> var_finite a = true ->
+  col_scale_finite m s (ffin_entries col) = true -> 0 <= FR (f_div m s) ->
+  NU (sumR xs / INR n) -> scale_NU (FR (f_mean s)) (FR (f_div m s)) xs ->
+  Rabs (rsum (map FR (fscale_col m s (ffin_entries col))) / INR n)
+  <= FR (f_div m s) * (g n * (rabssum xs / INR n) + g 2 * (rabssum (devs (FR (f_mean s)) xs) / INR n)).
+Proof. exact twin_zero_mean. Qed.
+Print Assumptions C14_fl_zero_mean.
+
+(* 30. RANGE of mean scaling in floating point: a value of [min, max] is mapped into [-1, 1] up to the error delta of the
+       stored mean and three roundings: |y| <= ((max - min) + delta) d (1+u)^2 + eta (no underflow assumption); the exact mean
+       lies in [min, max] *)
+Theorem C14_fl_mean_range_real : forall m d x mn mx mu delta, fmt x -> fmt m -> 0 <= d ->
+  mn <= x <= mx -> mn <= mu <= mx -> Rabs (m - mu) <= delta ->
+  Rabs (yR m d x) <= ((mx - mn) + delta) * d * ((1 + u) * (1 + u)) + eta.
+Proof. exact mean_range_R. Qed.
+Print Assumptions C14_fl_mean_range_real.
+
+Theorem C14_fl_mean_between : forall l mn mx, (1 <= length l)%nat -> Forall (fun x => mn <= x <= mx) l ->
+  mn <= rsum l / INR (length l) <= mx.
+Proof. exact mean_between. Qed.
+Print Assumptions C14_fl_mean_between.
+
+(* 31. UNIT DEVIATION of standard scaling in floating point: the sample variance of the scaled column is d^2 * (sample
+       variance of the column) up to g 4 d^2 (sum (x_i-m)^2 + (sum |x_i-m|)^2 / N) / (N-1)  [any offset m, any d >= 0];
+       with d = rnd (1 / sd), sd = sqrt (vc) (1 + e), |vc - var| <= E (25.):  |d^2 var - 1| <= ((1+u)^2/(1-u)^2 - 1) +
+       (1+u)^2 E / sd^2; and |sqrt v - 1| <= |v - 1| turns a variance statement into a deviation statement *)
+Theorem C14_fl_scaled_variance_real : forall m d l,
+  (2 <= length l)%nat -> Forall fmt l -> fmt m -> 0 <= d -> scale_NU m d l ->
+  Rabs (svar (map (yR m d) l) - d * d * svar l) <= g 4 * (d * d) * spread2 m l / (INR (length l) - 1).
+Proof. exact scaled_variance_R. Qed.
+Print Assumptions C14_fl_scaled_variance_real.
+
+Theorem C14_fl_unit_variance_real : forall var vc E sd e, 0 <= var -> 0 <= vc -> Rabs (vc - var) <= E -> Rabs e <= u ->
+  sd = sqrt vc * (1 + e) -> 0 < sd -> NU (/ sd) ->
+  Rabs (rnd (/ sd) * rnd (/ sd) * var - 1) <= ((1 + u) * (1 + u) / ((1 - u) * (1 - u)) - 1) + (1 + u) * (1 + u) * E / (sd * sd).
+Proof. exact unit_variance_R. Qed.
+Print Assumptions C14_fl_unit_variance_real.
+
+Theorem C14_fl_sqrt_near_one : forall v, 0 <= v -> Rabs (sqrt v - 1) <= Rabs (v - 1).
+Proof. exact sqrt_near_1. Qed.
+Print Assumptions C14_fl_sqrt_near_one.
+
+(* 32. linear::predict in floating point: outputs = inputs * W'^T (Eigen: any summation order) then += bias:
+       |rnd (D + b') - (sum w'_j x_j + b')| <= g (C + 1) (sum |w'_j x_j| + |b'|) *)
+Theorem C14_fl_predict_dot : forall t w x b, length w = length x -> (1 <= length w)%nat ->
+  Permutation (sleaves t) (prods1 w x) -> NU_prods1 w x -> fmt b ->
+  Rabs (rnd (sfl t + b) - (rsum (xprods w x) + b)) <= g (length w + 1) * (rabssum (xprods w x) + Rabs b).
+Proof. exact predict_dot_R. Qed.
+Print Assumptions C14_fl_predict_dot.
+
+(* non-vacuity: the column [1; nan; 3; 5] (ex_fcol, binary64) satisfies every hypothesis of 22-31; its scaled column under
+   standard scaling is [-1; 0; 1] *)
+Example C14_fl2_nonvacuous :
+  let a := fcol_acc ex_fbig ex_fcol in let xs := FRs ex_fcol in
+  xs = [1; 3; 5] /\ src_c14_disabled 0 1 1 = false /\ (2 <= length xs)%nat /\ (Z.of_nat (length xs) < 2 ^ 53)%Z /\
+  var_finite a = true /\ NU (sumR xs / INR (length xs)) /\ var_NU xs (INR (length xs)) /\
+  Forall fmt xs /\ fmt (INR (length xs) - 1) /\
+  fdone ex_feps 0 1 1 a = ex_fst /\
+  col_scale_finite MStandard ex_fst (ffin_entries ex_fcol) = true /\ 0 <= FR (f_div MStandard ex_fst) /\
+  scale_NU (FR (f_mean ex_fst)) (FR (f_div MStandard ex_fst)) xs /\
+  var_ex xs 3 = 4 /\ FR (f_mean ex_fst) = 3 /\ FR (f_stdev ex_fst) = 2 /\
+  map FR (fscale_col MStandard ex_fst (ffin_entries ex_fcol)) = [-1; 0; 1].
+Proof. exact ex2_nonvacuous. Qed.
+
+(* 30 / 31 / 32 with small dyadics: x = 5 in [1, 5], m = mu = 3, delta = 0; var = vc = 4, sd = 2; one product 2 * 3 + 1 *)
+Example C14_fl2_nonvacuous_real :
+  fmt 5 /\ fmt 3 /\ 0 <= / 4 /\ 1 <= 5 <= 5 /\ 1 <= 3 <= 5 /\ Rabs (3 - 3) <= 0 /\
+  0 <= 4 /\ Rabs (4 - 4) <= 0 /\ Rabs 0 <= u /\ 2 = sqrt 4 * (1 + 0) /\ 0 < 2 /\ NU (/ 2) /\
+  (let t := SLeaf 6 in length [2] = length [3] /\ (1 <= length [2])%nat /\ Permutation (sleaves t) (prods1 [2] [3]) /\
+   NU_prods1 [2] [3] /\ fmt 1).
+Proof. exact ex2_nonvacuous_real. Qed.
+
+(* ===================================================================================================================== *)
+(* The wrappers of src/linear.cpp (exact arithmetic, thin compositions over the model of nano::upscale / scale / upscale) *)
+(* ===================================================================================================================== *)
+From LNGen Require Import Src_dlinear.
+From LN Require Import C14_WrapDefs C14_Wrap.
+Local Open Scope Q_scope.
+
+(* 33. the translated mode arguments: ::fit trains with the model's linear::scaling parameter and calls nano::upscale with
+       that mode for BOTH the inputs and the targets; do_predict / evaluate run their iterator with scaling_type::none *)
+Theorem C14_wrap_modes : forall p, fit_mode_f p = p /\ fit_mode_t p = p /\ train_mode p = p /\ predict_mode = MNone /\
+  mode_of_Z src_c14l_evaluate_mode = MNone.
+Proof. exact wrap_modes. Qed.
+Print Assumptions C14_wrap_modes.
+
+(* 34. for EVERY (W, b) in scaled space (whatever the solver returned), every mode pair, every statistics with inverse
+       (de)normalisers: linear_t::predict of the stored model on a finite raw row = the up-scaled outputs of (W, b) on the
+       scaled row *)
+Theorem C14_wrap_predict_finite : forall fm tm fs ts W b x, shaped (length fs) ts W b -> length x = length fs ->
+  Forall2 Qeq (wrap_predict fs (lin_store fm tm fs ts W b) (map Some x)) (ref_predict fm tm fs ts W b (map Some x)).
+Proof. exact wrap_predict_finite. Qed.
+Print Assumptions C14_wrap_predict_finite.
+
+(* 35. missing raw inputs: do_predict reads them as 0 in RAW space, i.e. as scale(0) = -offset * div in scaled space, NOT as
+       the scaled zero the training iterator used; the exact discrepancy per output is
+       (sum over the missing columns of w_j * scaling_b_j) / scaling_w_target *)
+Theorem C14_wrap_predict_missing : forall fm tm fs ts W b raw, shaped (length fs) ts W b -> length raw = length fs ->
+  Forall2 Qeq (wrap_predict fs (lin_store fm tm fs ts W b) raw)
+              (qadd_list (ref_predict fm tm fs ts W b raw) (miss_terms fm tm fs ts W raw)).
+Proof. exact wrap_predict_missing. Qed.
+Print Assumptions C14_wrap_predict_missing.
+
+Theorem C14_wrap_predict_missing_is_raw_zero : forall fm tm fs ts W b raw,
+  shaped (length fs) ts W b -> length raw = length fs ->
+  Forall2 Qeq (wrap_predict fs (lin_store fm tm fs ts W b) raw)
+              (ref_predict fm tm fs ts W b (map Some (zero_missing raw))).
+Proof. exact wrap_predict_missing_is_raw_zero. Qed.
+Print Assumptions C14_wrap_predict_missing_is_raw_zero.
+
+Theorem C14_wrap_predict_missing_none : forall tm fs ts W b raw, shaped (length fs) ts W b -> length raw = length fs ->
+  Forall2 Qeq (wrap_predict fs (lin_store MNone tm fs ts W b) raw) (ref_predict MNone tm fs ts W b raw).
+Proof. exact wrap_predict_missing_none. Qed.
+Print Assumptions C14_wrap_predict_missing_none.
+
+(* "missing -> 0 in scaled space" is FALSE of the predictor (an observation, not a violation: the property's predictor clause
+   is stated on raw finite inputs, its missing-value clause is about scaling): witness = mean scaling of [1; 3; 5] *)
+Theorem C14_wrap_missing_scaled_zero_refuted : exists fm tm fs ts W b raw,
+  shaped (length fs) ts W b /\ length raw = length fs /\
+  ~ Forall2 Qeq (wrap_predict fs (lin_store fm tm fs ts W b) raw) (ref_predict fm tm fs ts W b raw).
+Proof. exact wrap_missing_refuted. Qed.
+Print Assumptions C14_wrap_missing_scaled_zero_refuted.
+
+Example C14_wrap_nonvacuous :
+  shaped (length [wx_stats]) [stats_off 3] [[1]] [0] /\ length [Some 5] = length [wx_stats] /\
+  Forall2 Qeq (wrap_predict [wx_stats] (lin_store MMean MNone [wx_stats] [stats_off 3] [[1]] [0]) [Some 5]) [1 # 2] /\
+  Forall2 Qeq (ref_predict MMean MNone [wx_stats] [stats_off 3] [[1]] [0] [Some 5]) [1 # 2] /\
+  Forall2 Qeq (wrap_predict [wx_stats] (lin_store MMean MNone [wx_stats] [stats_off 3] [[1]] [0]) [None]) [- (3 # 4)] /\
+  Forall2 Qeq (ref_predict MMean MNone [wx_stats] [stats_off 3] [[1]] [0] [None]) [0].
+Proof. exact wrap_nonvacuous. Qed.
